@@ -1,6 +1,6 @@
 (* ApiF.v — correspondence entry points for C13.  Definitions only. *)
 From Coq Require Import ZArith List Bool.
-From Mpir Require Import Word DivDefs MpfDefs ApiBasic MpfAddDefs MpfSubDefs.
+From Mpir Require Import Word DivDefs MpfDefs ApiBasic MpfAddDefs MpfSubDefs MpfDivDefs.
 Import ListNotations.
 Local Open Scope Z_scope.
 
@@ -65,3 +65,11 @@ Definition api_mpf_sub_exact : api := fun t =>
   let mk (m e : Z) := mkf_norm (m <? 0) (Z.abs m) e in
   let r := mpf_sub_full prec (mk (argz t 1) (argz t 2)) (mk (argz t 3) (argz t 4)) in
   [TZ (if fneg r then - fn r else fn r); TZ (fexp r); TZ (fM r)].
+
+(* bit-exact models of mpf_div / mpf_mul_ui / mpf_div_ui: prec (limbs) um ue [vm ve | k] -> size exp mantissa; the trap is the empty byte string *)
+Definition out_f (r : mpf) : list tok := [TZ (if fneg r then - fn r else fn r); TZ (fexp r); TZ (fM r)].
+Definition out_fo (o : option mpf) : list tok := match o with Some r => out_f r | None => [TB []] end.
+Definition mkraw (m e : Z) : mpf := mkf_norm (m <? 0) (Z.abs m) e.
+Definition api_mpf_div_exact : api := fun t => out_fo (mpf_div (argz t 0) (mkraw (argz t 1) (argz t 2)) (mkraw (argz t 3) (argz t 4))).
+Definition api_mpf_mul_ui_exact : api := fun t => out_f (mpf_mul_ui (argz t 0) (mkraw (argz t 1) (argz t 2)) (argz t 3)).
+Definition api_mpf_div_ui_exact : api := fun t => out_fo (mpf_div_ui (argz t 0) (mkraw (argz t 1) (argz t 2)) (argz t 3)).
